@@ -457,6 +457,32 @@ func (w *idxWalker) factsOf(cond ast.Expr, truth bool) []scandfa.Fact {
 					scan(x.X, false)
 					scan(x.Y, false)
 				}
+			case token.LSS, token.LEQ, token.GTR, token.GEQ:
+				// uint(a) < uint(b), uint(a) <= uint(b) with b not negative: one unsigned comparison says
+				// 0 <= a as well (a negative a converts to a huge value)
+				op := x.Op
+				if !truth {
+					op = map[token.Token]token.Token{token.LSS: token.GEQ, token.LEQ: token.GTR, token.GTR: token.LEQ, token.GEQ: token.LSS}[op]
+				}
+				l, r := x.X, x.Y
+				if op == token.GTR || op == token.GEQ {
+					l, r = r, l
+					op = map[token.Token]token.Token{token.GTR: token.LSS, token.GEQ: token.LEQ}[op]
+				}
+				la, lok := w.unsignedConv(l)
+				ra, rok := w.unsignedConv(r)
+				if lok && rok {
+					a, ok1 := w.pr.Lin(la)
+					b, ok2 := w.pr.Lin(ra)
+					if ok1 && ok2 && w.nonNegative(ra, b) {
+						fs = append(fs, scandfa.Fact{E: a})
+						if op == token.LSS {
+							fs = append(fs, scandfa.Fact{E: b.Minus(a).Plus(scandfa.Const(-1))})
+						} else {
+							fs = append(fs, scandfa.Fact{E: b.Minus(a)})
+						}
+					}
+				}
 			case token.NEQ, token.EQL:
 				nonNil := (x.Op == token.NEQ) == truth
 				if !nonNil {
@@ -474,6 +500,45 @@ func (w *idxWalker) factsOf(cond ast.Expr, truth bool) []scandfa.Fact {
 	}
 	scan(cond, truth)
 	return fs
+}
+
+// unsignedConv: e is uint(x) (uint32, uint64, uintptr alike) of a signed integer x at least as wide as the
+// conversion keeps apart (int, int64 to uint, uint64); x.
+func (w *idxWalker) unsignedConv(e ast.Expr) (ast.Expr, bool) {
+	call, ok := unparenE(e).(*ast.CallExpr)
+	if !ok || len(call.Args) != 1 {
+		return nil, false
+	}
+	tv, ok := w.info.Types[call.Fun]
+	if !ok || !tv.IsType() {
+		return nil, false
+	}
+	to, ok := tv.Type.Underlying().(*types.Basic)
+	if !ok || to.Info()&types.IsUnsigned == 0 || (to.Kind() != types.Uint && to.Kind() != types.Uint64 && to.Kind() != types.Uintptr) {
+		return nil, false
+	}
+	from := w.info.TypeOf(call.Args[0])
+	if from == nil {
+		return nil, false
+	}
+	fb, ok := from.Underlying().(*types.Basic)
+	if !ok || fb.Info()&types.IsInteger == 0 || fb.Info()&types.IsUnsigned != 0 {
+		return nil, false
+	}
+	return call.Args[0], true
+}
+
+// nonNegative: the expression is a constant >= 0 or a sum of lengths and such constants.
+func (w *idxWalker) nonNegative(e ast.Expr, lin scandfa.LExpr) bool {
+	if lin.K < 0 {
+		return false
+	}
+	for term, c := range lin.T {
+		if !(c > 0 && (strings.HasPrefix(term, "len(") || strings.HasPrefix(term, "cap("))) {
+			return false
+		}
+	}
+	return true
 }
 
 func (w *idxWalker) fieldVar(e ast.Expr) *types.Var {
